@@ -1,7 +1,7 @@
 (* Dispatch.v -- one command in, one observation out.  The same function is
    extracted to OCaml (model driver) and can be evaluated inside Coq
    (extraction cross-check).  Commands mirror harness/src/bin/impl_driver.rs. *)
-From MsiModel Require Import Base Sexp Timestamp Language.
+From MsiModel Require Import Base Sexp Timestamp Language ExprCmd.
 Open Scope string_scope.
 
 Record state := { st_dummy : unit }.
@@ -22,7 +22,11 @@ Definition dispatch (st : state) (c : sx) : state * sx :=
   | SL (SY name :: args) =>
       match pure_cmd name args with
       | Some o => (st, o)
-      | None => (st, bad_cmd)
+      | None =>
+          match expr_cmd name args with
+          | Some o => (st, o)
+          | None => (st, bad_cmd)
+          end
       end
   | _ => (st, bad_cmd)
   end.
